@@ -14,9 +14,18 @@ from ..engine.facts import VERIF
 WIDTH = {"u8": 8, "u16": 16, "u32": 32, "u64": 64, "usize": 64, "u128": 128, "i8": 8, "i16": 16, "i32": 32, "i64": 64, "isize": 64, "i128": 128}
 
 
+def _encl(fk):
+    """the named function enclosing a (possibly closure) body key"""
+    import re
+    fk = re.sub(r"(::\{closure#\d+\})+$", "", fk)
+    crate, _, rest = fk.partition("/")
+    return crate + "/" + rest.rsplit("::", 1)[-1]
+
+
 def narrowing_preserved(ctx, P, rule, crates):
     with open(os.path.join(VERIF, "tables", "narrowing_reviewed.json")) as fh:
         reviewed = {(e["fn"], e["conv"]): e for e in json.load(fh)["sites"]}
+    by_encl = {(_encl(fn_), conv_): e for (fn_, conv_), e in reviewed.items()}
     used = set()
     n = 0
     for b in P.bodies.values():
@@ -46,9 +55,12 @@ def narrowing_preserved(ctx, P, rule, crates):
             key = "%s:narrow:%s" % (fk, conv)
             if ok:
                 ctx.ok(rule, key, "operand proven <= %d at the conversion" % ((1 << WIDTH[to]) - 1), ctx.loc(b, i))
-            elif (fk, conv) in reviewed:
-                used.add((fk, conv))
-                ctx.ok(rule, key, "reviewed: " + reviewed[(fk, conv)]["reason"], ctx.loc(b, i))
+            elif (fk, conv) in reviewed or (_encl(fk), conv) in by_encl:
+                # a reviewed site is identified by the named function that encloses it: the conversion may sit in a closure of that
+                # function on one tree and in the function itself on another (`.ok().map(|d| d as u64)` <-> `.ok()?` + cast)
+                e_ = reviewed.get((fk, conv)) or by_encl[(_encl(fk), conv)]
+                used.add((e_["fn"], conv))
+                ctx.ok(rule, key, "reviewed: " + e_["reason"], ctx.loc(b, i))
             else:
                 ctx.fail(rule, key, "%s converts a %s to %s without a bound that shows it fits (and the site is not reviewed): larger values wrap modulo 2^%d, so a "
                          "different quantity is printed / compared than the one that was measured" % (T.short(b.path), fr, to, WIDTH[to]), ctx.loc(b, i))
